@@ -104,6 +104,35 @@ pub fn generate(rng: &mut Rng, thorough: bool, out: &mut Out) {
             }
         }
     }
+    // planes whose normal has two or three components of exactly equal magnitude (the choice of the
+    // projection axis is a tie there), either sign, scaled; integer bases keep the embedding exact
+    let bases: [([f64; 3], [f64; 3]); 8] = [
+        ([1.0, -1.0, 0.0], [0.0, 0.0, 1.0]),   // normal (-1,-1, 0)
+        ([1.0, 1.0, 0.0], [0.0, 0.0, 1.0]),    // normal ( 1,-1, 0)
+        ([1.0, 0.0, -1.0], [0.0, 1.0, 0.0]),   // normal ( 1, 0, 1)
+        ([1.0, 0.0, 1.0], [0.0, 1.0, 0.0]),    // normal (-1, 0, 1)
+        ([0.0, 1.0, -1.0], [1.0, 0.0, 0.0]),   // normal ( 0,-1,-1)
+        ([0.0, 1.0, 1.0], [1.0, 0.0, 0.0]),    // normal ( 0, 1,-1)
+        ([1.0, -1.0, 0.0], [1.0, 1.0, -2.0]),  // normal ( 2, 2, 2)
+        ([1.0, 1.0, 0.0], [1.0, -1.0, 2.0]),   // normal ( 2,-2,-2)
+    ];
+    for i in 0..(if thorough { 4000 } else { 320 }) {
+        let (u, w) = bases[i % 8];
+        let kind = [1u64, 2, 3, 4, 5, 6, 7, 8][(i / 8) % 8];
+        let n = 5 + rng.below(24) as usize;
+        let v = family(rng, kind, n);
+        let shift = rng.below(v.len() as u64) as usize;
+        let v = if is_grid_family(kind) {
+            place_exact(&v, rng.below(4), rng.range(-3, 3) as i32, Pt2::new(rng.range(-5, 5) as f64, rng.range(-5, 5) as f64), rng.chance(0.5), shift)
+        } else {
+            place(&v, 0.0, 1.0, Pt2::new(0.0, 0.0), rng.chance(0.5), shift)
+        };
+        let ps: Vec<Pt3> = v.iter().map(|p| Pt3::new(p.x * u[0] + p.y * w[0], p.x * u[1] + p.y * w[1], p.x * u[2] + p.y * w[2])).collect();
+        let nml = Pt3::new(u[1] * w[2] - u[2] * w[1], u[2] * w[0] - u[0] * w[2], u[0] * w[1] - u[1] * w[0]);
+        let k = [1.0, -1.0, 0.5, -2.0][(i / 64) % 4];
+        let (q, r) = run3(if i % 2 == 0 { "tri3d" } else { "tri3d_rev" }, ps, nml * k);
+        out.case(q, r);
+    }
     // straight-angle vertices on axis-aligned edges: every cyclic rotation of the list, both windings,
     // quarter turns, all four entry points
     for kind in 0..3u64 {
